@@ -346,13 +346,25 @@ func (c *Ctx) splitTable(fi *load.FuncInfo) {
 	}
 	// the two received values, in order: buy then sell
 	var inputs []types.Object
+	var sources []string // what each received channel was computed from
 	var decide ast.Stmt
-	for _, s := range loop.Body.List {
+	var tail []ast.Stmt // everything after the last receive and its check: local definitions and the decision
+	defs := singleDefs(info, fi.Decl.Body)
+	lastRecv := -1
+	for i, s := range loop.Body.List {
 		if as, ok := s.(*ast.AssignStmt); ok && len(as.Rhs) == 1 {
 			if u, ok := as.Rhs[0].(*ast.UnaryExpr); ok && u.Op.String() == "<-" {
 				if id, ok := as.Lhs[0].(*ast.Ident); ok {
 					if obj := info.Defs[id]; obj != nil {
 						inputs = append(inputs, obj)
+						src := exprString(u.X)
+						if cid, isID := u.X.(*ast.Ident); isID {
+							if d := defs[info.ObjectOf(cid)]; d != nil {
+								src = exprString(d)
+							}
+						}
+						sources = append(sources, src)
+						lastRecv = i
 					}
 				}
 			}
@@ -365,9 +377,16 @@ func (c *Ctx) splitTable(fi *load.FuncInfo) {
 		c.violate("decision-table", site, "shape", loop.Pos(), "Split's loop no longer receives one buy and one sell action and then decides (undecided, fails closed)")
 		return
 	}
-	// which input comes from the BuyStrategy
-	buyFirst := strings.Contains(strings.ToLower(inputs[0].Name()), "buy")
-	m := dtab.FromStmts(info, []ast.Stmt{decide}, inputs)
+	for i := lastRecv + 1; i < len(loop.Body.List); i++ {
+		s := loop.Body.List[i]
+		if is, ok := s.(*ast.IfStmt); ok && !containsSend(is) && i == lastRecv+1 {
+			continue // the ok check of the last receive
+		}
+		tail = append(tail, s)
+	}
+	// which input comes from the BuyStrategy (the exported field the channel was computed from)
+	buyFirst := strings.Contains(sources[0], "BuyStrategy") || !strings.Contains(sources[1], "BuyStrategy") && strings.Contains(strings.ToLower(inputs[0].Name()), "buy")
+	m := dtab.FromStmts(info, tail, inputs)
 	if !c.machineOK(m, "decision-table", site, fi.Decl) {
 		return
 	}
